@@ -435,7 +435,7 @@ impl Property for C07 {
     }
     fn required_labels(&self) -> Vec<String> {
         let mut v: Vec<String> = registry().iter().map(|e| format!("type={}", e.full)).collect();
-        v.extend(["schema=proto", "schema=python", "unknown-field", "unpacked", "map", "deprecated-field", "oneof-unset", "oneof-set", "shuffled", "explicit-default", "enum-undeclared-number"].iter().map(|s| s.to_string()));
+        v.extend(["schema=proto", "schema=python", "unknown-field", "unpacked", "map", "deprecated-field", "oneof-unset", "oneof-set", "shuffled", "explicit-default", "enum-undeclared-number", "read-through-artifact-layer"].iter().map(|s| s.to_string()));
         v
     }
     fn cases(&self, tier: Tier) -> usize {
@@ -626,6 +626,7 @@ impl Property for C07 {
         let ti = t.choice(reg.len());
         let use_py = t.coin();
         let lbits = t.byte();
+        let via_artifact = t.p(40);
         let shuffle: Vec<u8> = if lbits & 1 == 1 { (0..12).map(|_| t.byte()).collect() } else { vec![] };
         let layout = EncLayout { shuffle, unpacked: lbits & 2 != 0, split_runs: lbits & 4 != 0, explicit_defaults: lbits & 8 != 0, unknown_fields: lbits & 16 != 0, map_entry_swapped: lbits & 32 != 0 };
         let sc = schemas();
@@ -685,8 +686,81 @@ impl Property for C07 {
         if !rt_ok {
             return fail(format!("C07/prost-roundtrip/{}", e.full), format!("decode(encode(t)) != t: {}", what()));
         }
+        // an artifact layer holding these bytes (written by another implementation or a newer release) is read by the
+        // artifact getters with the same content as by a plain decode
+        if via_artifact {
+            if let Some(r) = layer_via_artifact(e.full, &bytes) {
+                ctx.label("read-through-artifact-layer");
+                if let Err(m) = r {
+                    return fail(format!("C07/artifact-layer/{}", e.full), format!("{m}: {}", what()));
+                }
+            }
+        }
         Ok(())
     }
+}
+
+/// Store `bytes` as a raw layer of the matching media type in a local archive, read it back through the typed
+/// getters and compare with the plain decode. None = not a layer kind.
+fn layer_via_artifact(full: &str, bytes: &[u8]) -> Option<Result<(), String>> {
+    use ommx::artifact::{media_types, Artifact, Builder};
+    use ommx::ocipkg::Digest;
+    static N: std::sync::atomic::AtomicU64 = std::sync::atomic::AtomicU64::new(0);
+    let mt = match full {
+        "ommx.v1.Instance" => media_types::v1_instance(),
+        "ommx.v1.ParametricInstance" => media_types::v1_parametric_instance(),
+        "ommx.v1.State" => media_types::v1_solution(),
+        "ommx.v1.SampleSet" => media_types::v1_sample_set(),
+        _ => return None,
+    };
+    let dir = std::path::Path::new("/verif/target/tmp");
+    let _ = std::fs::create_dir_all(dir);
+    let path = dir.join(format!("c07-{}-{}.ommx", std::process::id(), N.fetch_add(1, std::sync::atomic::Ordering::SeqCst)));
+    let _ = std::fs::remove_file(&path);
+    let r = (|| -> Result<(), String> {
+        let mut b = Builder::new_archive_unnamed(path.clone()).map_err(|e| format!("infra: {e:#}"))?;
+        let desc = b.add_layer(mt, bytes, std::collections::HashMap::new()).map_err(|e| format!("infra: {e:#}"))?;
+        let digest = Digest::new(desc.digest()).map_err(|e| format!("infra: {e:#}"))?;
+        b.build().map_err(|e| format!("infra: {e:#}"))?;
+        let mut a = Artifact::from_oci_archive(&path).map_err(|e| format!("infra: {e:#}"))?;
+        macro_rules! cmp {
+            ($ty:ty, $get:ident, $list:ident) => {{
+                let want = <$ty>::decode(bytes).map_err(|e| format!("plain decode failed: {e}"))?;
+                let (got, _) = a.$get(&digest).map_err(|e| format!("{} fails on a layer that a plain decode reads: {e:#}", stringify!($get)))?;
+                if got != want {
+                    return Err(format!("{} returns other content than a plain decode", stringify!($get)));
+                }
+                let all = a.$list().map_err(|e| format!("{} fails on a layer that a plain decode reads: {e:#}", stringify!($list)))?;
+                if all.len() != 1 || all[0].1 != want {
+                    return Err(format!("{} returns other content than a plain decode", stringify!($list)));
+                }
+            }};
+        }
+        match full {
+            "ommx.v1.Instance" => cmp!(v1::Instance, get_instance, get_instances),
+            "ommx.v1.State" => cmp!(v1::State, get_solution, get_solutions),
+            "ommx.v1.ParametricInstance" => {
+                let want = v1::ParametricInstance::decode(bytes).map_err(|e| format!("plain decode failed: {e}"))?;
+                let (got, _) = a.get_parametric_instance(&digest).map_err(|e| format!("get_parametric_instance fails on a layer that a plain decode reads: {e:#}"))?;
+                if got != want {
+                    return Err("get_parametric_instance returns other content than a plain decode".into());
+                }
+            }
+            _ => {
+                let want = v1::SampleSet::decode(bytes).map_err(|e| format!("plain decode failed: {e}"))?;
+                let (got, _) = a.get_sample_set(&digest).map_err(|e| format!("get_sample_set fails on a layer that a plain decode reads: {e:#}"))?;
+                if got != want {
+                    return Err("get_sample_set returns other content than a plain decode".into());
+                }
+            }
+        }
+        Ok(())
+    })();
+    let _ = std::fs::remove_file(&path);
+    Some(match r {
+        Err(m) if m.starts_with("infra:") => Ok(()), // could not build the archive: not this property's business
+        other => other,
+    })
 }
 
 fn label_features(s: &Schema, m: &DynMsg, ctx: &mut Ctx) {
